@@ -153,6 +153,94 @@ def attr_of_arg(fn, arg):
 ALL_FIELDS = []
 
 
+def _classify_groups(pattern):
+    """{group number: role} for the capture groups of the format-spec regex, from the regex's own parse tree (stdlib parser; nothing is matched)."""
+    import re._parser as sp
+    tree = sp.parse(pattern)
+    roles = {}
+
+    def lits(items):
+        out = set()
+        for op, av in items:
+            if str(op) == 'LITERAL':
+                out.add(chr(av))
+            elif str(op) == 'IN':
+                out |= lits(av)
+        return out
+
+    def walk(items, under_decimal):
+        for op, av in items:
+            name = str(op)
+            if name == 'SUBPATTERN':
+                num, _a, _b, sub = av
+                kinds = [str(o) for o, _v in sub]
+                has_nested = any(k == 'SUBPATTERN' or (k in ('MAX_REPEAT', 'MIN_REPEAT') and any(str(o2) == 'SUBPATTERN' for o2, _ in _v[2])) for k, (_v) in ((str(o), v) for o, v in sub))
+                dec_here = any(str(o2) == 'SUBPATTERN' and lits(v2[3]) == {'.'} for o2, v2 in sub)
+                if has_nested:
+                    roles[num] = 'composite'
+                    walk(sub, under_decimal or dec_here)
+                    continue
+                ls = lits(sub)
+                cats = {str(v) for o, v_ in sub if str(o) == 'IN' for o2, v in v_ if str(o2) == 'CATEGORY'}
+                digits = any(str(o) in ('MAX_REPEAT', 'MIN_REPEAT') and any(str(o2) == 'IN' and any(str(c[1]) == 'CATEGORY_DIGIT' for c in v2 if str(c[0]) == 'CATEGORY') for o2, v2 in v[2])
+                             for o, v in sub)
+                if digits:
+                    roles[num] = 'precision' if under_decimal else 'width'
+                elif {'CATEGORY_SPACE', 'CATEGORY_NOT_SPACE'} <= cats or kinds == ['ANY']:
+                    roles[num] = 'fill'
+                elif ls and ls <= set('<>=^') and '<' in ls:
+                    roles[num] = 'align'
+                elif ls and ls <= set('+- ') and '+' in ls:
+                    roles[num] = 'sign'
+                elif ls == {'#'}:
+                    roles[num] = 'alt'
+                elif ls == {'0'}:
+                    roles[num] = 'zero_padding'
+                elif ls and ls <= set(',_') and ',' in ls:
+                    roles[num] = 'comma'
+                elif ls == {'.'}:
+                    roles[num] = 'decimal'
+                elif {'s', 'd', 'f'} <= ls:
+                    roles[num] = 'type'
+                else:
+                    roles[num] = 'other:' + ''.join(sorted(ls))[:8]
+            elif name in ('MAX_REPEAT', 'MIN_REPEAT'):
+                walk(av[2], under_decimal)
+            elif name == 'BRANCH':
+                for alt in av[1]:
+                    walk(alt, under_decimal)
+    walk(tree, False)
+    return roles
+
+
+def spec_parse_obligation(ck):
+    """The fields of FormatSpec are filled from the capture groups that match them: the writer of the table (the regular expression) and its reader (the
+    `.group(..)` index list, in the field order of the namedtuple) agree.  A new group in the expression shifts every later index."""
+    tf = ck.index.mod('vermouth/truncating_formatter.py')
+    fn = tf.func('TruncFormatter.format_field')
+    cls = tf.cls('TruncFormatter')
+    pats = [st.value.value for st in cls.body if isinstance(st, ast.Assign) and u(st.targets[0]) == 'format_spec_re' and isinstance(st.value, ast.Constant) and isinstance(st.value.value, str)]
+    fields = None
+    for st in tf.tree.body:
+        if isinstance(st, ast.Assign) and u(st.targets[0]) == 'FormatSpec' and isinstance(st.value, ast.Call) and len(st.value.args) == 2:
+            f_ = try_fold(st.value.args[1], default=None)
+            fields = f_.split() if isinstance(f_, str) else list(f_) if isinstance(f_, (list, tuple)) else None
+    groups = [c for c in ast.walk(fn) if isinstance(c, ast.Call) and call_attr(c) == 'group' and 'format_spec_re' in u(c.func.value)]
+    ck.need(len(pats) == 1 and fields and len(groups) == 1, 'TruncFormatter: format_spec_re / FormatSpec / the .group(..) call were not found')
+    try:
+        roles = _classify_groups(pats[0])
+    except Exception as err:  # pylint: disable=broad-except
+        ck.need(False, 'TruncFormatter.format_spec_re could not be parsed: {}'.format(err))
+    idx = [try_fold(a, default=None) for a in groups[0].args]
+    got = [roles.get(i, 'no such group') for i in idx]
+    ok = len(idx) == len(fields) and got == fields
+    ck.ob('FMT-spec-parse', tf.loc(groups[0]), ok, 'FormatSpec{} is filled from the capture groups {} of format_spec_re, which match {}'.format(tuple(fields), tuple(idx), got),
+          key='FMT-spec-parse|groups')
+    # the expression is used through fullmatch on the spec with the trailing `t` cut off
+    ck.ob('FMT-spec-parse', tf.loc(groups[0]), call_attr(groups[0].func.value) == 'fullmatch' if isinstance(groups[0].func.value, ast.Call) else False,
+          'the whole format spec is matched (fullmatch)', key='FMT-spec-parse|fullmatch')
+
+
 def truncation_obligations(ck, fields):
     """Small-domain interpretation of TruncFormatter.format_field: for every
     field spec the writers use, an over-long formatted text comes out exactly
@@ -645,6 +733,7 @@ def run(ck):
     ck.ob('FMT-reader-accumulate', gro.loc(gr), okacc, 'GRO reader: every field starts where the widths before it (skipped fields included) end -- ' + detail,
           key='FMT-reader-accumulate|read_gro')
     truncation_obligations(ck, ALL_FIELDS)
+    spec_parse_obligation(ck)
     # the default helper: only None is replaced
     gnn = pdb.func('get_not_none')
     ck.analysed(pdb, gnn)
